@@ -22,7 +22,7 @@ for i in ids:
     if det:
         auto = 'quick tier: ' + ', '.join(f'{k} x{n}' if n > 1 else k for k, n in keys.most_common(6))
         if summ: auto += ' [' + summ[-1][:160] + ']'
-        if old == 'pending' or old.startswith('missed') or old.startswith('quick tier: '):
+        if old == 'pending' or old.startswith('missed') or old.startswith('MISSED') or old.startswith('quick tier: '):
             m['detected'] = auto
     elif old == 'pending':
         m['detected'] = 'missed (see DESIGN.md 11.5)'
